@@ -152,4 +152,37 @@ def run (shardOf : Nat → Nat) : St → List Lbl → Option St
     | some st' => run shardOf st' ls
     | none => none
 
+/-! ### source facts the LTS relies on (checked against `WK.Gen.C28`, regenerated from async_send.go) -/
+
+/-- calls at nesting depth 0, in source order -/
+def topCalls (cs : List (Nat × String)) : List String := (cs.filter (fun c => c.1 == 0)).map (·.2)
+
+/-- `recv` is ONE atomic step: submit reads `closed` and does `admitted.Add(1)` inside one
+    admissionMu critical section (Lock, closed.Load, Add, Unlock are the first four top-level
+    calls, and the only thing nested between Load and Add is the early exit's Unlock), and only
+    then asks the session for its shard. -/
+def admissionAtomic (cs : List (Nat × String)) : Bool :=
+  (topCalls cs).take 5 == ["e.admissionMu.Lock", "e.closed.Load", "e.admitted.Add", "e.admissionMu.Unlock", "asyncSendShardIndex"] &&
+  ((cs.dropWhile (fun c => c.2 != "e.closed.Load")).drop 1).takeWhile (fun c => c.2 != "e.admitted.Add") == [(1, "e.admissionMu.Unlock")]
+
+/-- `enq s false`: every fallible step after the admission (reserve, reserveShard, SubmitHash)
+    is followed, one level deeper, by `completeAdmission` before the next top-level step. -/
+def failureExitsGiveBack : List (Nat × String) → Bool
+  | [] => true
+  | c :: rest =>
+    (if c.1 == 0 && (c.2 == "e.reserve" || c.2 == "e.reserveShard" || c.2 == "e.mailbox.SubmitHash")
+     then (rest.takeWhile (fun d => d.1 != 0)).contains (1, "e.completeAdmission") else true) && failureExitsGiveBack rest
+
+/-- `drainStart` / `drainDone`: drain stores `closed` under admissionMu, and only afterwards waits
+    for `admitted` and closes `drained`. -/
+def drainOrder (cs : List (Nat × String)) : Bool :=
+  cs.map (·.2) == ["e.admissionMu.Lock", "e.closed.Store", "e.admissionMu.Unlock", "e.drainOnce.Do", "e.admitted.Wait", "close"]
+
+/-- `ack` / `abort`: the batch handler gives the admissions back in a deferred call that is
+    registered before dispatch, i.e. it runs after the handler returned. -/
+def batchGivesBackAfterDispatch (cs : List (Nat × String)) : Bool :=
+  match cs.map (·.2) |>.dropWhile (· != "defer e.completeAdmission") with
+  | _ :: rest => rest.contains "e.dispatchMailboxBatch" && !(cs.map (·.2)).contains "e.completeAdmission"
+  | [] => false
+
 end WK.C28
